@@ -306,6 +306,14 @@ func checkC17(e *Env) {
 		out := filepath.Join(dir, "internal", "wordlist")
 		os.MkdirAll(out, 0755)
 		defer os.RemoveAll(dir)
+		if ri%2 == 1 {
+			// the target files already exist and are longer than what will be written: a tool
+			// that does not truncate leaves a tail behind
+			old := "// Code generated earlier; DO NOT EDIT.\n\npackage wordlist\n\nvar Old = []string{\n" + strings.Repeat("\t\"stale\",\n", 150000) + "}\n"
+			for _, f := range ref.Files {
+				os.WriteFile(filepath.Join(out, f+".go"), []byte(old), 0644)
+			}
+		}
 		// upstream stand-in
 		var rmu sync.Mutex
 		var reqLog []string
